@@ -100,7 +100,7 @@ func (r *Rule) Init() error {
 		r.irregularMap[item.Word] = item.Replacement
 	}
 
-	reString = fmt.Sprintf(`(?i)(.*)\b((?:%s))$`, strings.Join(vIrregulars, `|`))
+	reString = fmt.Sprintf(`(?is)(.*)\b((?:%s))$`, strings.Join(vIrregulars, `|`))
 	r.compiledIrregular = regexp.MustCompile(reString)
 
 	r.compiledRules = make([]*CompiledRule, len(r.Rules))
